@@ -368,3 +368,97 @@ def event_interval(fn, events, cap=6):
                 old = IN.get(key)
                 IN[key] = (lo, hi) if old is None else (min(old[0], lo), max(old[1], hi))
     return res
+
+
+def deep_refs(fn, node, depth=4):
+    """refs of the subtree, looking through locals that have exactly one definition in the function
+    (`T const x = <expr>;`): the refs of the defining expression are added"""
+    out = set(fn.subtree_refs(node))
+    fn.defs_of_var('')
+    frontier = set(out)
+    for _ in range(depth):
+        new = set()
+        for r in frontier:
+            if not r.startswith('v:'):
+                continue
+            ds = fn._defs.get(r, [])
+            if len(ds) == 1 and ds[0][1] is not None:
+                new |= set(fn.subtree_refs(ds[0][1]))
+        new -= out
+        if not new:
+            break
+        out |= new
+        frontier = new
+    return out
+
+
+def counting_loop(fn, L):
+    """recognise `for(i=C; i < bound; i++)` in its spellings (declaration or assignment in the init clause, or the
+    single definition before a for/while whose only other writes are the step; ++i, i++, i+=1, i=i+1 as step).
+    Returns dict(var, start (const or None), start_node, step (+1/-1), cond, op, bound) or None."""
+    n = fn.N(L)
+    if n['k'] not in ('ForStmt', 'WhileStmt') or n.get('cond', -1) is None or n.get('cond', -1) < 0:
+        return None
+    cond = fn.strip(n['cond'])
+    cn = fn.N(cond)
+    if cn['k'] != 'BinaryOperator' or cn.get('op') not in ('<', '<=', '>', '>=', '!='):
+        return None
+    iv = fn.ref_of(cn['ch'][0])
+    bound = cn['ch'][1]
+    op = cn['op']
+    if iv is None or not iv.startswith(('v:', 'p:')):
+        iv = fn.ref_of(cn['ch'][1])
+        bound = cn['ch'][0]
+        op = {'<': '>', '<=': '>=', '>': '<', '>=': '<=', '!=': '!='}[op]
+        if iv is None or not iv.startswith(('v:', 'p:')):
+            return None
+
+    def step_of(w):
+        m = fn.N(w)
+        if m['k'] == 'UnaryOperator' and m.get('op') in ('++', '--') and fn.ref_of(m['ch'][0]) == iv:
+            return 1 if m['op'] == '++' else -1
+        if m['k'] == 'CompoundAssignOperator' and m.get('op') in ('+=', '-=') and fn.ref_of(m['ch'][0]) == iv and fn.const_value(m['ch'][1]) == 1:
+            return 1 if m['op'] == '+=' else -1
+        if m['k'] == 'BinaryOperator' and m.get('op') == '=' and fn.ref_of(m['ch'][0]) == iv:
+            r = fn.N(fn.strip(m['ch'][1]))
+            if r['k'] == 'BinaryOperator' and r.get('op') in ('+', '-') and fn.ref_of(r['ch'][0]) == iv and fn.const_value(r['ch'][1]) == 1:
+                return 1 if r['op'] == '+' else -1
+        return None
+    inside = [w for w in writes_to(fn, iv, L) if not (n.get('init', -1) is not None and n.get('init', -1) >= 0 and fn.contains(n['init'], w))]
+    steps = [step_of(w) for w in inside]
+    if len(inside) != 1 or steps[0] is None:
+        return None
+    w = inside[0]
+    if n['k'] == 'ForStmt' and n.get('inc', -1) is not None and n.get('inc', -1) >= 0 and fn.contains(n['inc'], w):
+        pass
+    else:
+        # step inside the body: it must run on every iteration, with no `continue` bypassing it
+        body = n['body']
+        if [j for j in fn.walk(body) if fn.N(j)['k'] == 'ContinueStmt']:
+            return None
+        pw = fn.point_of(w)
+        pc = fn.point_of(cond)
+        if pw is None or pc is None:
+            return None
+        # every path from the body entry back to the condition passes the step
+        anc = [a for a in fn.ancestors(w) if fn.contains(body, a) and fn.N(a)['k'] in ('IfStmt', 'SwitchStmt', 'ForStmt', 'WhileStmt', 'DoStmt', 'ConditionalOperator', 'CXXTryStmt')]
+        if anc:
+            return None
+    start_node = None
+    init = n.get('init', -1) if n['k'] == 'ForStmt' else -1
+    if init is not None and init >= 0:
+        i0 = fn.strip(init)
+        m = fn.N(i0)
+        if m['k'] == 'DeclStmt':
+            for d in m['decls']:
+                if d['ref'] == iv and d.get('init') is not None:
+                    start_node = d['init']
+        elif m['k'] == 'BinaryOperator' and m.get('op') == '=' and fn.ref_of(m['ch'][0]) == iv:
+            start_node = m['ch'][1]
+    if start_node is None:
+        outside = [(d, v) for (d, v) in fn.defs_of_var(iv) if not fn.contains(L, d)]
+        if len(outside) == 1 and outside[0][1] is not None and before(fn, outside[0][0], cond):
+            start_node = outside[0][1]
+    if start_node is None:
+        return None
+    return dict(var=iv, start=fn.const_value(start_node), start_node=start_node, step=steps[0], cond=cond, op=op, bound=bound)
